@@ -262,3 +262,20 @@ Theorem C16_ahtree_data_at_fixed_total :
     snd (ah_data_at true plog entry) <= Z.to_N plog.
 Proof. exact ah_data_at_fixed_total. Qed.
 Print Assumptions C16_ahtree_data_at_fixed_total.
+
+(* ------------------------------------------------------------------------------------------ *)
+(* SQL text: the scanning loops of lexer.Lex (SQLLex/Lexer.v: block and line comments, string and
+   blob literals, quoted identifiers, words, numbers, operators, parameters), positions only.    *)
+From V Require Import SQLLex.Lexer SQLLex.LexerTotal.
+
+(* For EVERY text: the loop that skips white space and comments ends within |text|+1 iterations
+   (an unterminated block comment ends at the end of the input), every call of Lex that does not
+   report the end of the input takes at least one byte, and therefore lexing the whole text ends
+   within |text|+1 calls. (The goyacc automaton driven by these tokens is not modelled.) *)
+Theorem C16_sql_lexer_terminates :
+  forall s : bytes,
+    lex_skip (S (length s)) s <> SkFuel /\
+    (forall pt pt' s', lex_one pt s = Some (pt', s') -> len s' + 1 <= len s) /\
+    lex_positions s <> None.
+Proof. exact (fun s => conj (lex_skip_terminates s) (conj (fun pt pt' s' => lex_one_progress pt s pt' s') (lex_positions_total s))). Qed.
+Print Assumptions C16_sql_lexer_terminates.
